@@ -1,8 +1,8 @@
 (* C13 - trash-restore offers the right entries and restores exactly the indices chosen.
    Statements only; proofs in Proofs/{LogicProofs,SortProofs,RestoreProofs}.v. *)
-From Coq Require Import Permutation.
+From Coq Require Import Permutation Sorted.
 From TV Require Import Prelude.Str Prelude.PosixPath Prelude.SortStable Logic.PyInt Logic.Indexes Logic.Scope
-  Prog.Prog Cmd.Restore Proofs.ProgProofs Proofs.LogicProofs Proofs.SortProofs Proofs.RestoreProofs World.World Proofs.WorldProofs Proofs.WorldRestore.
+  Prog.Prog Cmd.Restore Proofs.ProgProofs Proofs.LogicProofs Proofs.SortProofs Proofs.RestoreProofs World.World Proofs.WorldProofs Proofs.WorldRestore Proofs.SortSorted.
 Open Scope Z_scope.
 
 (* scope: an entry is offered iff the requested directory is "/", or is the entry's location itself, or the
@@ -33,6 +33,19 @@ Print Assumptions parse_part_spec.
 Theorem sort_is_permutation : forall m l, Permutation l (sort_files m l).
 Proof. intros m l. destruct m; simpl; [apply sort_stable_perm|apply sort_stable_perm|apply Permutation_refl]. Qed.
 Print Assumptions sort_is_permutation.
+
+(* "ordered as --sort requests": nothing later in the printed list has a strictly smaller key than something earlier
+   ((date is not None, date) for --sort=date, path + str(date) for --sort=path) ... *)
+Theorem sort_orders_by_key : forall m l, m <> SortNone ->
+  StronglySorted (fun a b => key_lt m b a = false) (sort_files m l).
+Proof. exact sort_files_sorted_lemma. Qed.
+Print Assumptions sort_orders_by_key.
+
+(* ... and entries with equivalent keys keep the order in which they were found: which entry stands at which index is
+   determined by the keys and the order of discovery *)
+Theorem sort_is_stable : forall m l k, filter (eqv (key_lt m) k) (sort_files m l) = filter (eqv (key_lt m) k) l.
+Proof. exact sort_files_stable_lemma. Qed.
+Print Assumptions sort_is_stable.
 
 (* the selection monitor (RestoreProofs.sel_step) counts the lines printed before the question; after the
    reply it accepts a mutating operation only if the reply is not empty and parse_indexes says Selected
